@@ -147,9 +147,10 @@ PROPS = {
   'assumptions': ['the amount of partial image data handed out before a failure is not compared (as the property allows)'],
  },
  'C08': {
-  'level_text': 'Coq theorems (closed under the global context; PARTIAL): advertised output colour type/bit depth = documented for all 15 kinds x 8 flag subsets x tRNS presence; advertised line size = packed size '
-                'for every width; the RGBA palette table (4-byte copy with alpha repair) equals the documented palette at every index for EVERY PLTE and tRNS payload and never panics. The per-row conversion loops of the model equal the documented pixel-wise conversion for EVERY width and row content for all 8- and 16-bit grey / grey-alpha / RGB / RGBA images (colour key or ALPHA, STRIP_16, both, neither) and whenever no change applies; '
-                'for the sub-byte and palette expansion kernels the equality is not proved: it is decided on every run by model = implementation = independent reference conversion on generated images.',
+  'level_text': 'Coq theorems (closed under the global context): advertised output colour type/bit depth = documented for all 15 kinds x 8 flag subsets x tRNS presence; advertised line size = packed size '
+                'for every width; the RGBA palette table (4-byte copy with alpha repair) equals the documented palette at every index for EVERY PLTE and tRNS payload and never panics; and for EVERY kernel of the dispatcher - copy, STRIP_16, '
+                'colour key / ALPHA at 8 and 16 bits (with and without STRIP_16), sub-byte grey expansion (with and without colour key), palette expansion at depth 1, 2, 4 and 8 (RGB and RGBA, incl. the 4-bytes-at-a-time RGB writer) - '
+                'the row computed by the model of the conversion loops equals the documented pixel-wise conversion for every width and every row content. The loops are hand-modelled and tied to the crate by model = implementation = independent reference conversion on generated images.',
   'level_note': 'Trusted: Coq kernel; hand model of transform.rs / palette.rs / output_color_type (coq/Model/Transform.v) tied by differential execution through the public API; reference conversion in harness/src/c08.rs. '
                 'Not proved: transform_row = spec_convert for the row loops.',
   'gen_items': [],
